@@ -134,3 +134,44 @@ Example C02_example_tampered :
   snd (step ex_cfg h_session (EvInbound 102 pkt_request) 14 nod) = [OEvent (HWhoAreYou (7, 102) (3, 3))].
 Proof. split; [exact request_step_tampered_nonce | exact request_step_other_address]. Qed.
 Print Assumptions C02_example_tampered.
+
+(* The record the service vouches for when the handler asks who a packet's sender is (Service::find_enr,
+   Model/Admission.v find_enr, compared with the real service on generated who-are-you queries): its id is
+   the id asked for, the routing table's record takes precedence over whatever a running lookup was told,
+   and an id known to neither gets no record. *)
+Require Discv5V.Model.KBucket Discv5V.Model.Nodes Discv5V.Model.Admission Discv5V.Proofs.Admission.
+Module C02FindEnr.
+Import Discv5V.Model.KBucket Discv5V.Model.Nodes Discv5V.Model.Admission.
+Theorem C02_service_vouches_only_with_a_record_of_the_id_asked_for :
+  forall (rec_of : N -> enr) (tf : enr -> bool) (mode : ip_mode) (c : config) (t : table)
+         (u : list enr) (id now : N) (e : enr),
+  Discv5V.Proofs.Admission.Adm rec_of tf mode t ->
+  snd (find_enr rec_of c t u id now) = Some e -> e_id e = id.
+Proof. exact Discv5V.Proofs.Admission.find_enr_id. Qed.
+Print Assumptions C02_service_vouches_only_with_a_record_of_the_id_asked_for.
+Theorem C02_stored_record_takes_precedence_over_lookup_hearsay :
+  forall (rec_of : N -> enr) (c : config) (t : table) (u u' : list enr) (id now : N) (e : enr),
+  present_rec rec_of (fst (t_entry c t id ALook now)) id = Some e ->
+  snd (find_enr rec_of c t u id now) = snd (find_enr rec_of c t u' id now).
+Proof. exact Discv5V.Proofs.Admission.find_enr_table_first_any_queries. Qed.
+Print Assumptions C02_stored_record_takes_precedence_over_lookup_hearsay.
+Theorem C02_no_record_for_an_unknown_id :
+  forall (rec_of : N -> enr) (c : config) (t : table) (u : list enr) (id now : N),
+  present_rec rec_of (fst (t_entry c t id ALook now)) id = None ->
+  (forall e : enr, In e u -> e_id e <> id) ->
+  snd (find_enr rec_of c t u id now) = None.
+Proof. exact Discv5V.Proofs.Admission.find_enr_unknown. Qed.
+Print Assumptions C02_no_record_for_an_unknown_id.
+End C02FindEnr.
+
+(* The receive task in front of the handler (RecvHandler::handle_inbound, Model/Limiter.v recv_inbound,
+   compared with the real task through the virtual handler on generated datagrams): *)
+Require Discv5V.Model.Limiter Discv5V.Proofs.Limiter.
+Module C02Recv.
+Import Discv5V.Model.Limiter.
+Theorem C02_receive_task_forwards_the_datagram_source : forall (f : pfilter) (p : pbl) (expected : list saddr) (src : saddr) (packet : option pkind) (now : N),
+  let fwd := snd (recv_inbound f p expected src packet now) in
+  fwd = normalise_src src /\ sa_ip fwd = sa_ip src /\ sa_port fwd = sa_port src /\ sa_flow fwd = 0%N /\ sa_scope fwd = 0%N.
+Proof. exact Discv5V.Proofs.Limiter.inbound_forwards_normalised_source. Qed.
+Print Assumptions C02_receive_task_forwards_the_datagram_source.
+End C02Recv.
